@@ -19,7 +19,10 @@ const (
 	EnforceMinDistinct = 14
 	enforceMinBans     = 8
 	enforceMinPostBan  = 20
-	enfChildTimeout    = 400 * time.Second
+	// Host family: offences judged that came from an IP already banned
+	// through another port (the FIXED scenarios alone reach 6).
+	enforceMinHostSecond = 2
+	enfChildTimeout      = 400 * time.Second
 )
 
 // EnfTally is what the parent saw of the enforcement half.
@@ -31,10 +34,25 @@ type EnfTally struct {
 	PostBanConns int64
 	Scenarios    int64
 	Planned      int // scenarios of this tier (after VERIF_SCALE)
+	// Host family: scenarios that reported, and offences judged that were
+	// committed from an IP already banned through another of its ports.
+	HostScenarios int64
+	HostSecond    int64
+	HostPlanned   int
 }
 
-// EnforceCount is the number of enforcement scenarios of a tier.
-func EnforceCount(r *evid.Run) int { return r.Pick(16, 150) }
+// enfClassic is the number of scenarios of the classic family in this tier
+// (scenarios 0..enfClassic-1); the scenarios from there on belong to the
+// family "several peers on one IP address" (enfhost.go). Set by EnforceCount.
+var enfClassic = 16
+
+// EnforceCount is the number of enforcement scenarios of a tier: the classic
+// family followed by the host family (its first hostFixed scenarios are
+// FIXED).
+func EnforceCount(r *evid.Run) int {
+	enfClassic = r.Pick(16, 150)
+	return enfClassic + r.Pick(8, 40)
+}
 
 // EnforcementChild runs one scenario when this process is a scenario child
 // (and never returns in that case).
@@ -63,10 +81,16 @@ func EnforcementPart(r *evid.Run) EnfTally {
 		"(c) no honest/stale/slow/disconnecting peer banned unless the log shows it left a request unanswered/late or dropped its own connection in a session with conflicts (then inconclusive); "+
 		"(d) on connections the client dealt with after the ban was seen (opened later, or the peer's version sent later) the peer receives no request message at all, and no handshaken connection to a banned address is open after a 30 s watchdog (typical: ms); (e) an honest peer is still connected; IsBanned agrees with the reopened store. "+
 		"distinct = scenario shape (kind x peer-mix multiset x path x first peer / steering) and per-peer outcome shape (class[:lie] x path x ban reason x what happened to later connections); non-trivial = at least one ban observed (control: synced with all peers up)")
+	r.Set("enf_host_rule", "family 'several peers on one IP address' (the scenarios after the classic ones; enf_host_* counters): a host is one IP address (IPv4, IPv4 the client is told in IPv4-mapped spelling, IPv6, IPv6 told expanded) with 2-3 simulated peers on different ports, all connected at once and past the handshake, next to 2 honest peers on IPs of their own; 1-2 hosts. "+
+		"The ports of a host misbehave at DIFFERENT moments, with offences of the existing vocabulary: an invalid block in answer to a GetBlock call's getdata (value / dropped tx / witness flip), a false filter hash (omit-script / wrong-hash / unserved) for the next announced block in answer to a getcfheaders request the honest peers answer too, a false filter checkpoint during a checkpointed initial sync (first offender only), service bits without witness / compact filters on a reconnect (only while the IP is not banned); interleaved with a port dropping its own connection, UnbanPeer (either spelling, any port's address, permanent or not) and a restart of the client on the same data directory. "+
+		"FIXED: 0 = two ports of one IPv4 host, port 0 serves an invalid block, later port 1 does; 1 = three ports (told IPv4-mapped): missing services on a reconnect, then a false filter hash, then an invalid block; 2 = IPv6, two ports: false filter hash, unban by the other spelling, invalid block from the same port, invalid block from the other; 3 = invalid block, restart, unban, unserved false filter hash from the other port, invalid block. The others are seeded. "+
+		"Oracle, per offender, once the client has judged the item (the GetBlock call during which the invalid block was served promptly has returned the true block / the client's committed filter headers passed the height of the false hash / it completed the initial sync / it closed the connection on which the version arrived): IsBanned is true; the connection on which the item was served is closed (if it is still open after a 30 s watchdog one more block is announced: a violation only if the client follows it to the tip with the connection still open); the ban store opened next to the client (not IsBanned's path) holds a record for the IP whose reason belongs to an offence a port of that IP committed since the ban was last lifted; IsBanned agrees with it for the bare IP, two more spellings and both spellings of every port; no connection to any port of the IP opened while the ban stands (from its sighting to the UnbanPeer call, across restarts) completes a handshake; after UnbanPeer nothing reports the address banned; the database reopened after Stop agrees with the model. "+
+		"NOT judged, counted: whether a port that has not misbehaved is dropped when its IP is banned (the client keeps it), whether the recorded reason is that of the latest or of an earlier offence. Non-trivial = at least one offence judged that came from an IP already banned through another port.")
 	r.Assume("enforcement part: the simulated peers implement the protocol subset of DESIGN appendix B; client knobs (QueryTimeout 1.5 s, ConnectionRetryInterval 300 ms) are the shortened exported configuration of engine L2; a connection 'carried a request' iff the peer-side log shows a non-handshake, non-ping message on it")
 	r.Assume("enforcement part: a ban is timestamped by polling IsBanned, so a connection opened between the ban and its first sighting counts as opened before the ban (weaker, never wrong)")
 
 	if *enfOne >= 0 {
+		EnforceCount(r) // (sets the boundary between the two families)
 		res := &l2.Result{Scenario: *enfOne}
 		t0 := time.Now()
 		EnforceScenario(r.Seed, *enfOne, res)
@@ -82,7 +106,8 @@ func EnforcementPart(r *evid.Run) EnfTally {
 		tally   EnfTally
 		samples = map[int]any{} // the store half fills evid's sample slots: keep the enforcement samples apart
 	)
-	l2.RunScenariosCB(r, EnforceCount(r), enfChildTimeout, EnforceScenario, func(res *l2.Result) {
+	total := EnforceCount(r)
+	cb := func(res *l2.Result) {
 		mu.Lock()
 		defer mu.Unlock()
 		if res.Nontrivial {
@@ -94,7 +119,7 @@ func EnforcementPart(r *evid.Run) EnfTally {
 				fps[m] = true
 			}
 		}
-		if res.Sample != nil && res.Scenario < 4 {
+		if res.Sample != nil && (res.Scenario < 4 || res.Scenario >= enfClassic && res.Scenario < enfClassic+2) {
 			samples[res.Scenario] = map[string]any{"scenario": res.Scenario, "name": res.Name, "fingerprint": res.Fingerprint,
 				"wall_s": res.WallS, "marks": res.Marks, "observed": res.Sample}
 		}
@@ -102,9 +127,27 @@ func EnforcementPart(r *evid.Run) EnfTally {
 		tally.RequiredBans += res.Counters["enf_required_bans_found"]
 		tally.PostBanConns += res.Counters["enf_postban_connections"]
 		tally.Scenarios += res.Counters["enf_scenarios"]
-	})
+		tally.HostScenarios += res.Counters["enf_host_scenarios"]
+		tally.HostSecond += res.Counters["enf_host_offences_judged_ip-already-banned-through-another-port"]
+	}
+	// The host family's scenarios mostly wait (query timeouts, redials): they
+	// run on a pool of their own next to the classic ones instead of behind
+	// them. The case list is the same either way.
+	var hostKs []int
+	for k := enfClassic; k < total; k++ {
+		hostKs = append(hostKs, k)
+	}
+	var hostDone sync.WaitGroup
+	hostDone.Add(1)
+	go func() {
+		defer hostDone.Done()
+		l2.RunScenarioList(r, hostKs, 8, enfChildTimeout, cb)
+	}()
+	l2.RunScenariosCB(r, enfClassic, enfChildTimeout, EnforceScenario, cb)
+	hostDone.Wait()
 	tally.Distinct = len(fps)
-	tally.Planned = EnforceCount(r)
+	tally.Planned = total
+	tally.HostPlanned = total - enfClassic
 	list := make([]string, 0, len(fps))
 	for k := range fps {
 		list = append(list, k)
@@ -115,7 +158,7 @@ func EnforcementPart(r *evid.Run) EnfTally {
 	}
 	r.Set("enf_fingerprints_seen_first80", list)
 	var ss []any
-	for k := 0; k < 4; k++ {
+	for _, k := range []int{0, 1, 2, 3, enfClassic, enfClassic + 1} {
 		if v, ok := samples[k]; ok {
 			ss = append(ss, v)
 		}
@@ -144,6 +187,9 @@ func (t EnfTally) EnforcementFloorMet() (bool, string) {
 		return false, fmt.Sprintf("enforcement half: %d bans observed < floor %d", t.Bans, lim(enforceMinBans, n/2))
 	case t.PostBanConns < lim(enforceMinPostBan, n):
 		return false, fmt.Sprintf("enforcement half: %d connections opened after a ban < floor %d", t.PostBanConns, lim(enforceMinPostBan, n))
+	case t.HostSecond < lim(enforceMinHostSecond, int64(t.HostPlanned)):
+		return false, fmt.Sprintf("enforcement half, several peers on one IP: %d offences judged that came from an already banned IP < floor %d (%d of %d scenarios reported)",
+			t.HostSecond, lim(enforceMinHostSecond, int64(t.HostPlanned)), t.HostScenarios, t.HostPlanned)
 	}
 	return true, ""
 }
